@@ -9,9 +9,11 @@ writing a shared holder and a reference to it).  The reader (`readValue`) is **d
 code: the kind byte read from the archive selects the calls that follow; objects the reader allocates
 (`new ScriptConstArrayHolder`, the element variables) are named from a label supply carried by the schema.
 
-Kinds covered: None, String, Integer, Float, Char, ConstString, Listener, ConstArray (nested, shared),
-Vector.  Not covered (the harness never generates them): Ref, Array (hash-map holder), Container,
-SafeContainer, Pointer.
+Kinds covered: every `variableType_e` that `ArchiveInternal` handles — None, String, Integer, Float, Char,
+ConstString, Listener / Ref / Container / SafeContainer (`Value.link`: one pointer record each), ConstArray and
+Array (nested, holders shared between variables: `refCount`, later variables refer to the holder by archive
+index), Pointer (a `ScriptPointer` cell shared by several variables, archived as the list of the variables that
+point at it), Vector.
 -/
 namespace Morfuse.Archive
 
@@ -23,15 +25,25 @@ inductive Value where
   | string (bs : Bytes)
   | constString (s : Option Bytes)                     -- `none`: dictionary index 0
   | vector (bs : Bytes)                                -- the 12 bytes of float[3]
-  | listener (o : Lbl)
+  /-- the kinds that are one pointer record: Listener (6, `SafePtr<Listener>`), Ref (7, plain pointer to another
+      `ScriptVariable`), Container (10, plain pointer), SafeContainer (11, `SafePtr<ConList>`) -/
+  | link (code : Nat) (safe : Bool) (o : Lbl)
   | constArray (h : Lbl) (rc : Nat) (elems : List (Lbl × Value))   -- holder, refCount, elements with their own addresses
-  | constArrayRef (h : Lbl)                            -- a variable sharing a holder already archived
+  /-- Array (8): `ScriptArrayHolder` `h` with `refCount`, the `con::set` header numbers besides `count`, and the
+      entries in the order of the writer's table walk, flattened: key₁, value₁, key₂, value₂, … (each a
+      `ScriptVariable` of the entry, with its own address) -/
+  | array (h : Lbl) (rc tl th tli : Nat) (kvs : List (Lbl × Value))
+  /-- Pointer (12): the `ScriptPointer` cell `p` and its `list` (the variables that point at it) -/
+  | pointer (p : Lbl) (vars : List Lbl)
+  /-- a variable sharing a holder / cell already archived (`code` = 8 Array, 9 ConstArray, 12 Pointer) -/
+  | holderRef (code : Nat) (h : Lbl)
   deriving Repr
 
 /-- `variableType_e` -/
 def Value.code : Value → Nat
   | .none => 0 | .string _ => 1 | .int _ => 2 | .float _ => 3 | .char _ => 4 | .constString _ => 5
-  | .listener _ => 6 | .constArray _ _ _ => 9 | .constArrayRef _ => 9 | .vector _ => 13
+  | .link c _ _ => c | .constArray _ _ _ => 9 | .holderRef c _ => c | .vector _ => 13
+  | .array _ _ _ _ _ _ => 8 | .pointer _ _ => 12
 
 /-- `sizeof(ScriptVariable)` (for `new ScriptVariable[size + 1]`) -/
 def svSize : Nat := 16
@@ -48,16 +60,31 @@ def valCalls (t : List Lbl) (self : Lbl) : Value → List Lbl × List Item
   | .constString none => ((addUnique t self).1, [.position self, .prim .byte 5, .prim .byte 0])
   | .constString (some bs) => ((addUnique t self).1, [.position self, .prim .byte 5, .prim .byte 1, .str bs])
   | .vector bs => ((addUnique t self).1, [.position self, .prim .byte 13, .raw bs, .raw bs, .raw bs])
-  | .listener o =>
+  | .link c safe o =>
     let t1 := (addUnique t self).1
-    ((if o = 0 then t1 else (addUnique t1 o).1), [.position self, .prim .byte 6, .ptr true o])
-  | .constArrayRef h =>
+    ((if o = 0 then t1 else (addUnique t1 o).1), [.position self, .prim .byte c, .ptr safe o])
+  | .holderRef c h =>
     let t1 := (addUnique t self).1
-    if h ∈ t1 then (t1, [.position self, .prim .byte 9, .prim .bool 0, .ptr false h])
+    if h ∈ t1 then (t1, [.position self, .prim .byte c, .prim .bool 0, .ptr false h])
     else
-      -- the code would archive the holder's content here; a `constArrayRef` to a holder that was never
-      -- archived is not a state the generator produces: written as an empty new holder
-      ((addUnique t1 h).1, [.position self, .prim .byte 9, .prim .bool 1, .position h, .prim .u32 0, .prim .u32 0])
+      -- the code would archive the holder's content here; a reference to a holder that was never
+      -- archived is not a state the generator produces (`WFValue` excludes it): written as the bare position
+      ((addUnique t1 h).1, [.position self, .prim .byte c, .prim .bool 1, .position h])
+  | .pointer p vars =>
+    let t1 := (addUnique t self).1
+    if p ∈ t1 then (t1, [.position self, .prim .byte 12, .prim .bool 0, .ptr false p])
+    else
+      -- `con::Archive(arc, list, &ScriptVariable::Archive)`: `num`, then `ArchiveObjectPointer` per variable
+      let r := encItems (addUnique t1 p).1 (vars.map (.ptr false ·))
+      (r.1, [.position self, .prim .byte 12, .prim .bool 1, .position p, .prim .u32 vars.length] ++ vars.map (.ptr false ·))
+  | .array h rc tl th tli kvs =>
+    let t1 := (addUnique t self).1
+    if h ∈ t1 then (t1, [.position self, .prim .byte 8, .prim .bool 0, .ptr false h])
+    else
+      let t2 := (addUnique t1 h).1
+      let r := elemCalls t2 kvs
+      (r.1, [.position self, .prim .byte 8, .prim .bool 1, .position h, .prim .u32 rc, .prim .u32 tl, .prim .u32 th,
+             .prim .u32 (kvs.length / 2), .prim .u16 tli] ++ r.2)
   | .constArray h rc elems =>
     let t1 := (addUnique t self).1
     if h ∈ t1 then (t1, [.position self, .prim .byte 9, .prim .bool 0, .ptr false h])
@@ -114,6 +141,30 @@ def readElemsWith (rv : Lbl → Supply → RS → Res (Value × Supply)) :
     (rv sup.next.1 sup.next.2 s).bind fun r s =>
       (readElemsWith rv n r.2 s).bind fun r2 s => .ok ((sup.next.1, r.1) :: r2.1, r2.2) s
 
+/-- `Hash<ScriptVariable>`: the kinds a hash-array key may have (any other: `BadHashCodeValue`, a script
+    exception, is thrown out of `con::set::Archive`) -/
+def Value.hashable : Value → Bool
+  | .string _ | .constString _ | .int _ => true
+  | .link c _ _ => c == 6
+  | _ => false
+
+/-- the entry loop of `con::set<ScriptVariable, ScriptVariable>::Archive`: `NewEntry()` (key and value variable),
+    `Key().ArchiveInternal`, `Value().ArchiveInternal`, then the key is hashed -/
+def readPairsWith (rv : Lbl → Supply → RS → Res (Value × Supply)) :
+    Nat → Supply → RS → Res (List (Lbl × Value) × Supply)
+  | 0, sup, s => .ok ([], sup) s
+  | n + 1, sup, s =>
+    (rv sup.next.1 sup.next.2 s).bind fun k s =>
+      (rv k.2.next.1 k.2.next.2 s).bind fun v s =>
+        if !k.1.hashable then .err .badHash s else
+        (readPairsWith rv n v.2 s).bind fun r s =>
+          .ok ((sup.next.1, k.1) :: (k.2.next.1, v.1) :: r.1, r.2) s
+
+/-- the element loop of `con::Archive(arc, list, &ScriptVariable::Archive)`: one `ArchiveObjectPointer` each -/
+def readPlainPtrs (cfg : Cfg) : Nat → RS → Res (List Nat)
+  | 0, s => .ok [] s
+  | n + 1, s => (readPtr cfg false s).bind fun i s => (readPlainPtrs cfg n s).bind fun is s => .ok (i :: is) s
+
 /-- An exception while the variable already has kind ConstArray but its holder pointer is still whatever the
     union held: the caller's `~ScriptVariable` follows that pointer (`ClearInternal`).  Undefined behaviour
     unless the kind is assigned only after the payload (`cfg.valueTypeLate`). -/
@@ -139,11 +190,52 @@ def readValue (cfg : Cfg) : Nat → Lbl → Supply → RS → Res (Value × Supp
         (readData cfg (Prim.byte).tag 1 none s).bind fun hb s =>
           if unle hb = 0 then .ok (.constString none, sup) s
           else (readStr cfg [] s).bind fun bs s => .ok (.constString (some bs), sup) s
-      | 6 => (readPtr cfg true s).bind fun i s => .ok (.listener i, sup) s
+      | 6 => (readPtr cfg true s).bind fun i s => .ok (.link 6 true i, sup) s
+      -- Ref / Container: `ArchiveObjectPointer((void*&)m_data.refValue)`
+      | 7 => (readPtr cfg false s).bind fun i s => .ok (.link 7 false i, sup) s
+      | 10 => (readPtr cfg false s).bind fun i s => .ok (.link 10 false i, sup) s
+      -- SafeContainer: `new ConListPtr`, `ArchiveSafePointer`
+      | 11 => (readPtr cfg true s).bind fun i s => .ok (.link 11 true i, sup) s
+      | 12 =>
+        -- `ScriptPointer::Archive(arc, pointerValue)`: `bool newRef;` uninitialised
+        (guardKind cfg (readData cfg (Prim.bool).tag 1 none s)).bind fun nb s =>
+          if unle nb = 0 then (guardKind cfg (readPtr cfg false s)).bind fun i s => .ok (.holderRef 12 i, sup) s
+          else
+            (readData cfg (Prim.pos).tag 4 (some (zeros 4)) s).bind fun pb s =>
+            (addAt cfg (unle pb) sup.next.1 s).bind fun _ s =>
+            -- `con::Archive(arc, list, func)`: `uint32_t num;` uninitialised; `num` is bounded by the stream, then
+            -- `SetNumObjects(num)` allocates `num` pointers
+            (readData cfg (Prim.u32).tag 4 none s).bind fun nb s =>
+              if !s.good || !lenGe s.rest (unle nb) then .err .streamFail s
+              else if unle nb * 8 ≥ cfg.allocLimit then .err .alloc s
+              else (readPlainPtrs cfg (unle nb) s).bind fun is s => .ok (.pointer sup.next.1 is, sup.next.2) s
+      | 8 =>
+        -- `ScriptArrayHolder::Archive(arc, arrayValue)`
+        (guardKind cfg (readData cfg (Prim.bool).tag 1 none s)).bind fun nb s =>
+          if unle nb = 0 then (guardKind cfg (readPtr cfg false s)).bind fun i s => .ok (.holderRef 8 i, sup) s
+          else
+            (readData cfg (Prim.pos).tag 4 (some (zeros 4)) s).bind fun pb s =>
+            (addAt cfg (unle pb) sup.next.1 s).bind fun _ s =>
+            (readPrim cfg .u32 s).bind fun rc s =>
+            -- `con::set::Archive`: `tableLength32`, `threshold32`, `count32` uninitialised locals
+            (readData cfg (Prim.u32).tag 4 none s).bind fun tlb s =>
+            (readData cfg (Prim.u32).tag 4 none s).bind fun thb s =>
+            (readData cfg (Prim.u32).tag 4 none s).bind fun cb s =>
+              -- `remaining = GetRemainingSize()` (which starts with `CheckRead()`)
+              if !s.good then .err .streamFail s
+              else if unle tlb = 0 || !lenGe s.rest (unle cb) then .err .streamFail s
+              else
+                let clamp := !lenGe s.rest (unle tlb)
+                let tl := if clamp then (if unle cb > 1 then unle cb else 1) else unle tlb
+                let th := if clamp then tl else unle thb
+                (readData cfg (Prim.u16).tag 2 (some (zeros 2)) s).bind fun tlib s =>
+                  if tl ≠ 1 ∧ tl * 8 ≥ cfg.allocLimit then .err .alloc s
+                  else (readPairsWith (readValue cfg fuel) (unle cb) sup.next.2 s).bind fun r s =>
+                    .ok (.array sup.next.1 rc tl th (unle tlib) r.1, r.2) s
       | 9 =>
         -- `bool newRef;` uninitialised
         (guardKind cfg (readData cfg (Prim.bool).tag 1 none s)).bind fun nb s =>
-          if unle nb = 0 then (guardKind cfg (readPtr cfg false s)).bind fun i s => .ok (.constArrayRef i, sup) s
+          if unle nb = 0 then (guardKind cfg (readPtr cfg false s)).bind fun i s => .ok (.holderRef 9 i, sup) s
           else
             (readData cfg (Prim.pos).tag 4 (some (zeros 4)) s).bind fun pb s =>
             (addAt cfg (unle pb) sup.next.1 s).bind fun _ s =>
@@ -159,7 +251,6 @@ def readValue (cfg : Cfg) : Nat → Lbl → Supply → RS → Res (Value × Supp
         (readData cfg rawTag 12 (some b1) s).bind fun b2 s =>
         (readData cfg rawTag 12 (some b2) s).bind fun b3 s => .ok (.vector b3, sup) s
       | 0 => .ok (.none, sup) s
-      -- Ref/Container (7, 10): a plain pointer; Array, SafeContainer, Pointer: not modelled;
       -- any other byte: `default: break`
       | _ => .ok (.none, sup) s
 
@@ -171,6 +262,8 @@ mutual
 /-- labels of the objects the reader will allocate for a value, in allocation order -/
 def supplyOf : Value → Supply
   | .constArray h _ elems => h :: supplyOfElems elems
+  | .array h _ _ _ _ kvs => h :: supplyOfElems kvs
+  | .pointer p _ => [p]
   | _ => []
 def supplyOfElems : List (Lbl × Value) → Supply
   | [] => []
@@ -198,9 +291,11 @@ def look (table : List Lbl) (i : Nat) : Lbl := if i = 0 then 0 else table.getD (
 
 mutual
 def fixValue (table : List Lbl) : Value → Value
-  | .listener i => .listener (look table i)
-  | .constArrayRef i => .constArrayRef (look table i)
+  | .link c s i => .link c s (look table i)
+  | .holderRef c i => .holderRef c (look table i)
   | .constArray h rc elems => .constArray h rc (fixElems table elems)
+  | .array h rc tl th tli kvs => .array h rc tl th tli (fixElems table kvs)
+  | .pointer p vars => .pointer p (vars.map (look table))
   | v => v
 def fixElems (table : List Lbl) : List (Lbl × Value) → List (Lbl × Value)
   | [] => []
